@@ -20,6 +20,7 @@ Inductive outcome : Type :=
 Fixpoint v_compare (a b : value) {struct a} : option comparison :=
   match a, b with
   | VInt x, VInt y => Some (Z.compare x y)
+  | VMutez x, VMutez y => Some (Z.compare x y)
   | VStr x, VStr y => Some (bytes_cmp x y)
   | VBool x, VBool y => Some (match x, y with
                               | false, true => Lt
@@ -52,6 +53,16 @@ Definition euclid_r (a b : Z) : Z := (a mod Z.abs b)%Z.
 Definition ref_ediv (a b : Z) : value :=
   if (b =? 0)%Z then VNone
   else VSome (VPair (VInt (euclid_q a b)) (VInt (euclid_r a b))).
+(* mutez / nat -> (mutez, mutez);  mutez / mutez -> (nat, mutez) *)
+Definition ref_ediv_mutez_nat (a b : Z) : value :=
+  if (b =? 0)%Z then VNone
+  else VSome (VPair (VMutez (euclid_q a b)) (VMutez (euclid_r a b))).
+Definition ref_ediv_mutez_mutez (a b : Z) : value :=
+  if (b =? 0)%Z then VNone
+  else VSome (VPair (VInt (euclid_q a b)) (VMutez (euclid_r a b))).
+(* mutez results must fit in 63 bits, otherwise the instruction fails *)
+Definition mutez_result (z : Z) (r : list value) : outcome :=
+  if (z <? mutez_bound)%Z then Done (VMutez z :: r) else RtError.
 
 Fixpoint concat_strs (l : list value) : option bytes :=
   match l with
@@ -71,7 +82,7 @@ Definition zcmp (i : instr) (z : Z) : bool :=
   end.
 
 (* rules  I / a : b : S  =>  c : S  of the instructions without sub-programs *)
-Definition ref_simple (i : instr) (s : list value) : outcome :=
+Definition ref_simple (e : env) (i : instr) (s : list value) : outcome :=
   match i with
   | I_DROP _ | I_DUP _ | I_DIG _ | I_DUG _ => match shuffle i s with Some s' => Done s' | None => Stuck end
   | I_SWAP => match s with a :: b :: r => Done (b :: a :: r) | _ => Stuck end
@@ -107,10 +118,35 @@ Definition ref_simple (i : instr) (s : list value) : outcome :=
               | VList l :: r => Done (VInt (Z.of_nat (length l)) :: r)
               | _ => Stuck
               end
-  | I_ADD => match s with VInt a :: VInt b :: r => Done (VInt (a + b) :: r) | _ => Stuck end
+  | I_ADD => match s with
+             | VInt a :: VInt b :: r => Done (VInt (a + b) :: r)
+             | VMutez a :: VMutez b :: r => mutez_result (a + b) r
+             | _ => Stuck
+             end
   | I_SUB => match s with VInt a :: VInt b :: r => Done (VInt (a - b) :: r) | _ => Stuck end
-  | I_MUL => match s with VInt a :: VInt b :: r => Done (VInt (a * b) :: r) | _ => Stuck end
-  | I_EDIV => match s with VInt a :: VInt b :: r => Done (ref_ediv a b :: r) | _ => Stuck end
+  | I_MUL => match s with
+             | VInt a :: VInt b :: r => Done (VInt (a * b) :: r)
+             | VMutez a :: VInt b :: r | VInt a :: VMutez b :: r => mutez_result (a * b) r
+             | _ => Stuck
+             end
+  | I_SUB_MUTEZ => match s with
+                   | VMutez a :: VMutez b :: r => Done ((if (b <=? a)%Z then VSome (VMutez (a - b)) else VNone) :: r)
+                   | _ => Stuck
+                   end
+  | I_AMOUNT => Done (VMutez (e_amount e) :: s)
+  | I_BALANCE => Done (VMutez (e_balance e) :: s)
+  | I_SENDER => Done (VStr (e_sender e) :: s)
+  | I_SOURCE => Done (VStr (e_source e) :: s)
+  | I_SELF_ADDRESS => Done (VStr (e_self e) :: s)
+  | I_NOW => Done (VInt (e_now e) :: s)
+  | I_LEVEL => Done (VInt (e_level e) :: s)
+  | I_CHAIN_ID => Done (VStr (e_chain_id e) :: s)
+  | I_EDIV => match s with
+              | VInt a :: VInt b :: r => Done (ref_ediv a b :: r)
+              | VMutez a :: VInt b :: r => Done (ref_ediv_mutez_nat a b :: r)
+              | VMutez a :: VMutez b :: r => Done (ref_ediv_mutez_mutez a b :: r)
+              | _ => Stuck
+              end
   | I_NEG => match s with VInt a :: r => Done (VInt (- a) :: r) | _ => Stuck end
   | I_ABS => match s with VInt a :: r => Done (VInt (Z.abs a) :: r) | _ => Stuck end
   | I_ISNAT => match s with
@@ -202,71 +238,71 @@ Fixpoint ref_map (run : list value -> outcome) (l : list value) (s : list value)
               end
   end.
 
-Fixpoint ref_eval (fuel : nat) (i : instr) (s : list value) {struct fuel} : outcome :=
+Fixpoint ref_eval (e : env) (fuel : nat) (i : instr) (s : list value) {struct fuel} : outcome :=
   match fuel with
   | 0 => OutOfFuel
   | S f =>
       match i with
       | I_NOOP => Done s
-      | I_SEQ a b => match ref_eval f a s with
-                     | Done s1 => ref_eval f b s1
+      | I_SEQ a b => match ref_eval e f a s with
+                     | Done s1 => ref_eval e f b s1
                      | o => o
                      end
       | I_DIP n c =>
           if n <=? length s then
-            match ref_eval f c (skipn n s) with
+            match ref_eval e f c (skipn n s) with
             | Done r => Done (firstn n s ++ r)
             | o => o
             end
           else Stuck
       | I_IF bt bf => match s with
-                      | VBool true :: r => ref_eval f bt r
-                      | VBool false :: r => ref_eval f bf r
+                      | VBool true :: r => ref_eval e f bt r
+                      | VBool false :: r => ref_eval e f bf r
                       | _ => Stuck
                       end
       | I_IF_NONE bt bf => match s with
-                           | VNone :: r => ref_eval f bt r
-                           | VSome a :: r => ref_eval f bf (a :: r)
+                           | VNone :: r => ref_eval e f bt r
+                           | VSome a :: r => ref_eval e f bf (a :: r)
                            | _ => Stuck
                            end
       | I_IF_LEFT bt bf => match s with
-                           | VLeft a :: r => ref_eval f bt (a :: r)
-                           | VRight b :: r => ref_eval f bf (b :: r)
+                           | VLeft a :: r => ref_eval e f bt (a :: r)
+                           | VRight b :: r => ref_eval e f bf (b :: r)
                            | _ => Stuck
                            end
       | I_IF_CONS bt bf => match s with
-                           | VList (h :: t) :: r => ref_eval f bt (h :: VList t :: r)
-                           | VList [] :: r => ref_eval f bf r
+                           | VList (h :: t) :: r => ref_eval e f bt (h :: VList t :: r)
+                           | VList [] :: r => ref_eval e f bf r
                            | _ => Stuck
                            end
       | I_LOOP c => match s with
-                    | VBool true :: r => match ref_eval f c r with
-                                         | Done s1 => ref_eval f (I_LOOP c) s1
+                    | VBool true :: r => match ref_eval e f c r with
+                                         | Done s1 => ref_eval e f (I_LOOP c) s1
                                          | o => o
                                          end
                     | VBool false :: r => Done r
                     | _ => Stuck
                     end
       | I_LOOP_LEFT c => match s with
-                         | VLeft a :: r => match ref_eval f c (a :: r) with
-                                           | Done s1 => ref_eval f (I_LOOP_LEFT c) s1
+                         | VLeft a :: r => match ref_eval e f c (a :: r) with
+                                           | Done s1 => ref_eval e f (I_LOOP_LEFT c) s1
                                            | o => o
                                            end
                          | VRight b :: r => Done (b :: r)
                          | _ => Stuck
                          end
       | I_ITER c => match s with
-                    | VList l :: r => ref_iter (ref_eval f c) l r
+                    | VList l :: r => ref_iter (ref_eval e f c) l r
                     | _ => Stuck
                     end
       | I_MAP c => match s with
-                   | VList l :: r => match ref_map (ref_eval f c) l r with
+                   | VList l :: r => match ref_map (ref_eval e f c) l r with
                                      | MDone ys s1 => Done (VList ys :: s1)
                                      | MStop o => o
                                      end
                    | _ => Stuck
                    end
-      | _ => ref_simple i s
+      | _ => ref_simple e i s
       end
   end.
 
